@@ -14,7 +14,7 @@ from .canon import to_canon, show
 LEVEL = "exploration"
 RULE = ("expression tree (<=9 nodes) over + - * %, constant and variable exponents on positive bases, negation, +/ and */ "
         "reductions, indexing, each with a lambda, imported backend functions exp sin cos tanh sqrt log; evaluation point with "
-        "components in {0.5,0.75,1.25,1.5,2.0,2.5}; divisors / log / sqrt arguments / variable-exponent bases are sums of squares "
+        "components in {0.5,0.75,1.25,1.5,2.0,2.5} (a scalar, a vector of 2-3, or a 2x2 / 3x2 / 2x3 matrix written as a literal, as the transpose of a literal, or held in a variable bound to that transpose; also a vector written as an expression); divisors / log / sqrt arguments / variable-exponent bases are sums of squares "
         "plus a constant (smooth by construction); forms f:>P, P-nabla-f, q-nabla-f, P-jacobian-g, .jacobian(g;P), loss:>[w b], "
         "[w b]-jacobian-g, with g either (e, e*e) for a scalar tree e or a vector tree built from the whole parameter vector with reverse, drop, take, + - *, scaling, join, each with a lambda, +-scan; on numpy (numeric) and torch (autograd); non-trivial = the tree has >=2 different operations and a "
         "non-linear one; distinct by (tree, point, form, backend)")
@@ -347,6 +347,9 @@ def run_form(backend, form, e, point):
         names = [f'(w@{i})' for i in range(n - 1)] + ['b']
     elif scalar:
         names = ['x']
+    elif form.startswith('mat'):
+        rows, cols = mat_shape(form)
+        names = [f'((x@{i})@{j})' for i in range(rows) for j in range(cols)]
     else:
         names = [f'(x@{i})' for i in range(n)]
 
@@ -389,8 +392,34 @@ def run_form(backend, form, e, point):
         return None
     body = text(e)
     P = repr(point[0]) if scalar else '[' + ' '.join(repr(p) for p in point) + ']'
+    if form.startswith('mat'):
+        # the point is a rows x cols matrix: written as a literal, or as the transpose of the literal of its transpose
+        # (the same value; an implementation may hold it in another memory layout)
+        rows, cols = mat_shape(form)
+        lit = lambda rws: '[' + ''.join('[' + ' '.join(repr(v) for v in r) + ']' for r in rws) + ']'
+        M = [[point[i * cols + j] for j in range(cols)] for i in range(rows)]
+        P = lit(M)
+        PT = '+' + lit([[M[i][j] for i in range(rows)] for j in range(cols)])
     try:
-        if form in ('f:>P', 'f:>P-scalar'):
+        if form.startswith('mat'):
+            what = form.split(':', 2)[2]
+            if what == 'f:>M':
+                r = k('{' + body + '}:>' + P)
+            elif what == 'M∇f':
+                r = k(P + '∇{' + body + '}')
+            elif what == 'f:>+T':
+                r = k('{' + body + '}:>' + PT)
+            elif what == 'q∇f,q=+T':
+                k('q::' + PT)
+                r = k('q∇{' + body + '}')
+            elif what == 'f:>q,q=+T':
+                k('q::' + PT)
+                r = k('{' + body + '}:>q')
+            else:
+                raise ValueError(form)
+        elif form == '(P+0)∇f':
+            r = k('(' + P + '+0.0)∇{' + body + '}')          # the point is the value of an expression
+        elif form in ('f:>P', 'f:>P-scalar'):
             r = k('{' + body + '}:>' + P)
         elif form in ('P∇f', 'P∇f-scalar'):
             r = k(P + '∇{' + body + '}')
@@ -426,15 +455,27 @@ def run_form(backend, form, e, point):
     return got, want, fval, '{' + body + '} at ' + P, (scale, t3)
 
 
-FORMS_VEC = ['f:>P', 'P∇f', 'q∇f', 'f:>q', 'P∂g', '.jacobian', 'multi:>', 'multi∂', 'P∂G', '.jacobianG', 'multi∂G']
+FORMS_VEC = ['f:>P', 'P∇f', 'q∇f', 'f:>q', 'P∂g', '.jacobian', 'multi:>', 'multi∂', 'P∂G', '.jacobianG', 'multi∂G', '(P+0)∇f']
+FORMS_MAT = ['f:>M', 'M∇f', 'f:>+T', 'q∇f,q=+T', 'f:>q,q=+T']
+MAT_SHAPES = [(2, 2), (3, 2), (2, 3)]
+
+
+def mat_shape(form):
+    r, c = form.split(':', 2)[1].split('x')
+    return int(r), int(c)
 FORMS_SCALAR = ['f:>P-scalar', 'P∇f-scalar', 'q∇f-scalar']
 
 
 @st.composite
 def cases(draw):
     backend = draw(st.sampled_from(['numpy', 'torch']))
-    scalar = draw(st.sampled_from([False, False, True]))
-    if scalar:
+    scalar = draw(st.sampled_from([False, False, True, 'matrix']))
+    if scalar == 'matrix':
+        rows, cols = draw(st.sampled_from(MAT_SHAPES))
+        form = f'mat:{rows}x{cols}:' + draw(st.sampled_from(FORMS_MAT))
+        e = draw(tree_strategy([('v', f'((x@{i})@{j})') for i in range(rows) for j in range(cols)]))
+        point = [draw(st.sampled_from(GRID)) for _ in range(rows * cols)]
+    elif scalar:
         form = draw(st.sampled_from(FORMS_SCALAR))
         e = draw(tree_strategy([('v', 'x')]))
         point = [draw(st.sampled_from(GRID))]
